@@ -159,6 +159,88 @@ def _print_stream(ctx):
     return out
 
 
+def _pairs_stream(ctx):
+    """The SAME hostile value in two leaves guarded by different validators of one family (match path / filter path
+    replacement, header and query names / values, listener / route / filter hostnames), in one batch, in a second run of the
+    same objects in the same process, and in two successive batches of one controller; plus: every such scenario and every base
+    scenario run twice in one process must give the same configuration (harness/c04/pairs.go). Judged like the leaf search."""
+    thorough = ctx.tier == "thorough"
+    lines = ctx.harness(["-mode", "pairs", "-seed", ctx.seed, "-n", 0 if thorough else 2, "-workers", 12 if thorough else 4]) or []
+    out = {"lines": len(lines)}
+    if not lines:
+        ctx.broken("pairs stream of harness/c04 produced nothing")
+        return out
+    jin, metas, stats = [], {}, {}
+    for l in lines:
+        tag = l[:1]
+        if tag in "FBPLR" and l[1:2] == "\t":
+            jin.append(l)
+        elif tag == "M":
+            m = json.loads(l[2:])
+            metas[m["id"]] = m
+        elif tag == "S":
+            _, k, v = l.split("\t")
+            stats[k] = int(v)
+        elif tag == "X":
+            ctx.broken(f"base scenario unusable: {l[2:]}")
+        elif tag == "D":
+            d = json.loads(l[2:])
+            ctx.broken(f"statefulness: {d['what']}: {d.get('pair', d['base'])} = {d.get('value', '')!r}: {d['diff']}", replay=d)
+    jout = ctx.driver("judge", jin) if jin else []
+    verdicts = collections.Counter()
+    nstate = 0
+    for l, v in zip(jin, jout):
+        if l[0] == "B":
+            if not v.startswith("base "):
+                ctx.broken(f"pair baseline files do not lex: {v}", replay={"baseline": l.split('\t')[1]})
+            continue
+        if l[0] not in "PR":
+            continue
+        m = metas.get(int(l.split("\t")[1]))
+        if m is None:
+            continue
+        what = f"{m['path']} = {m['value']!r} ({m['base']}; {m.get('gate', '')})"
+        if m.get("panic"):
+            verdicts["panic"] += 1
+            continue
+        if l[0] == "R":
+            if v == "same":
+                verdicts["second-run-same"] += 1
+            else:
+                verdicts["second-run-differs"] += 1
+                nstate += 1
+                if nstate <= 3:
+                    ctx.broken(f"statefulness: the same objects run a second time in one process give a different configuration: "
+                               f"{what}: {v}", replay={"meta": m, "verdict": v})
+            continue
+        if v == "ok absent":
+            changed = bool(m.get("conds_new") or m.get("conds_gone"))
+            if m["reaches"] and not changed:
+                verdicts["dropped-silently"] += 1
+                ctx.finding(sig_for(m, "dropped-silently"), f"{what}: the value of the first leaf is rendered when the second leaf is "
+                            f"benign, vanishes when both carry the value, and no status condition reports it", {"meta": m, "verdict": v})
+            else:
+                verdicts["rejected-or-not-rendered"] += 1
+        elif v.startswith("ok inside"):
+            verdicts["inside-argument"] += 1
+        elif v.startswith("fail "):
+            parts = v.split(" ", 4)
+            clause = parts[1]
+            verdicts["fail-" + clause] += 1
+            ctx.finding(sig_for(m, clause), f"{what}: {clause} in {parts[2]} against the run in which only the second leaf carries the "
+                        f"value: {parts[4] if len(parts) > 4 else ''}", {"meta": m, "verdict": v})
+        else:
+            ctx.broken(f"judge could not decode pair case {m['id']}: {v}")
+    if stats.get("pair-probes", 0) < 100 or verdicts["second-run-same"] + verdicts["second-run-differs"] < 100:
+        ctx.broken(f"pairs stream nearly vacuous: {stats.get('pair-probes', 0)} probes, {verdicts['second-run-same']} repeat comparisons")
+    out.update({"verdicts": dict(verdicts), "pipeline_runs": stats.get("runs", 0), "leaf_pairs": stats.get("pairs", 0),
+                "probes": stats.get("pair-probes", 0), "first_leaf_rejects_class": stats.get("pair-class-rejected-by-first-leaf", 0),
+                "group_pairs": {k[10:]: v for k, v in stats.items() if k.startswith("pairgroup:")},
+                "payload_classes": {k[10:]: v for k, v in stats.items() if k.startswith("pairclass:")},
+                "base_scenarios_run_twice": stats.get("base-scenarios-run-twice", 0)})
+    return out
+
+
 def run(ctx):
     ctx.prepare()
     ctx.obligations("NGF.Props.C04")
@@ -303,6 +385,7 @@ def run(ctx):
             ctx.broken(f"judge could not decode case {cid}: {v}")
 
     print_tie = _print_stream(ctx)
+    pairs = _pairs_stream(ctx)
 
     leaves_total = stats.get("leaves", 0)
     reaching = stats.get("leaves-reaching-config", 0)
@@ -310,7 +393,7 @@ def run(ctx):
         ctx.broken(f"degenerate enumeration: {leaves_total} leaves, {reaching} reaching the configuration")
     distinct_nontrivial = sum(1 for lf, c in outcome_by_leaf.items() for k in c if k != "not-rendered")
     ctx.finish({
-        "evaluations": len(metas) + len(vin) + print_tie.get("runs", 0),
+        "evaluations": len(metas) + len(vin) + print_tie.get("runs", 0) + pairs.get("pipeline_runs", 0),
         "distinct_nontrivial": verdicts["inside-argument"] + verdicts["rejected-with-status"] + nfind +
                                print_tie.get("hostile_accepted_compared", 0) + print_tie.get("hostile_rejected_benign_rendered", 0),
         "rule": "one evaluation = one run of the real pipeline (graph, dataplane, generator, status setters) on a base scenario "
@@ -324,6 +407,7 @@ def run(ctx):
                                      "rejected": vacc.get("0", 0), "composed_strings": vacc.get("str", 0),
                                      "validators": len(vnames)},
         "print_tie": print_tie,
+        "same_value_pairs": pairs,
         "pipeline_runs": stats.get("runs", 0),
         "probes": len(metas),
         "leaves_enumerated": leaves_total,
